@@ -667,4 +667,17 @@ Proof.
   - split; [reflexivity|]. split; [|reflexivity]. intros pfs' H. injection H as <-. reflexivity.
 Qed.
 
+(* an Apply depends on its own store argument only, never on an earlier Apply of the same Fields:
+   immediate in the model (apply has no other input); with field_values this gives the full per-field
+   statement for the SECOND Apply in terms of sB alone *)
+Lemma apply_twice_stateless pfx pfs (sA sA' sB : store) :
+  snd (apply_twice jdec unm_ok ans now_s pfx pfs sA sB) = apply jdec unm_ok ans now_s pfx sB pfs /\
+  snd (apply_twice jdec unm_ok ans now_s pfx pfs sA sB) = snd (apply_twice jdec unm_ok ans now_s pfx pfs sA' sB) /\
+  (Inv sB -> forall s' frs rq, snd (apply_twice jdec unm_ok ans now_s pfx pfs sA sB) = (s', frs, rq) ->
+     Inv s' /\ Forall2 (field_spec sB s' pfx) pfs frs).
+Proof.
+  unfold apply_twice. cbn [snd]. split; [reflexivity|]. split; [reflexivity|].
+  intros I s' frs rq H. exact (field_values _ _ _ _ _ _ I H).
+Qed.
+
 End ApplyProofs.
